@@ -11,7 +11,11 @@ _m(
     "always >= 1 live pixel) x fit in {plane, constant}; both models and both code paths are run on every case.  (fit) "
     "same geometry x method {plane, constant} x real plane coefficients built so every origin stays inside the detector "
     "(a quarter of the plane fits get an exactly flat map: a constant is also a plane) "
-    "x fit_origin data dtype {float64, float32} x fit_origin mask {default None, all-True as the caller passes}.  "
+    "x fit_origin data dtype {float64, float32} x fit_origin mask {default None, all-True as the caller passes} x "
+    "probe_positions for fit_origin_background {None (inferred) | the index grid spelled out | an invertible affine image "
+    "of it: scan step 1..4 per axis, any rotation, offset within +-20} x form {float32 tensor, float64 tensor, ndarray, "
+    "nested list} x layout {(N,2), (a,b,2)} - a plane/constant over the scan indices is the same plane/constant over "
+    "such positions, so the expected fitted origins are unchanged.  "
     "(shift) same geometry x uniform/blob patterns x integer origins in [0,H-1]x[0,W-1] per pattern (or one for all) x "
     "batch size None|1..a*b x mode {bilinear, nearest, bicubic}; in addition EVERY detector side length 2..128 (thorough: "
     "2..600) x every mode is enumerated (not sampled): that side on a drawn axis, the other side 2..6, scan 1x2 or 2x2, "
@@ -48,6 +52,10 @@ _m(
         "fits: 1e-3 px for the float32 PCA plane / mean and for float32 data through fit_origin (measured max 1.1e-5 in random search, 2.1e-5 on the steepest admissible planes), "
         "1e-6 px for float64 data through fit_origin (measured max 2.5e-9); surfaces are restricted to origins inside "
         "the detector (an origin is a detector coordinate), so plane slopes are bounded by (L-1)/(n-1)",
+        "explicit probe_positions are limited to scan steps >= 1 unit and offsets <= 20: the float32 PCA loses accuracy "
+        "as the in-plane spread shrinks or the offset grows (measured worst 7e-5 px on the steepest planes in this "
+        "domain, 2.2e-5 in 45 000 random cases; 5e-4 px at steps 0.25..8 / offsets 100); only correctly shaped "
+        "positions (num_patterns rows after view(-1, 2)) are passed",
         "roll: (2e-5 + 1e-6 * longest detector side) of the maximum intensity: grid_sample at integer positions is "
         "exact only up to float32 rounding of the normalised grid, ~6e-8 px per pixel of side length (measured max "
         "1.2e-6 for sides <= 12 and 5.4e-8 * side for sides up to 600; a missed wrap costs >= 4e-2)",
